@@ -7,6 +7,7 @@ import (
 	"io"
 
 	"github.com/aws/aws-sdk-go-v2/service/s3"
+	"github.com/aws/aws-sdk-go-v2/service/s3/types"
 	"github.com/versity/versitygw/auth"
 	"github.com/versity/versitygw/backend/meta"
 	"github.com/versity/versitygw/internal/zzvf"
@@ -250,4 +251,139 @@ func VfOverwriteAcrossProcesses() {
 		zzvf.Assert(zzvf.And(etag == out2.ETag, size == cl), "listing-agrees-with-get-in-every-process")
 	}
 	zzvf.Reach("checked")
+}
+
+// ---- C04: confinement
+
+// hostile path-like values: up to four segments drawn from "..", ".", "" and an ordinary name, optional leading slash
+func vfHostile(tag string, maxSeg int) string {
+	n := 1 + zzvf.Choice(tag+"$segments", maxSeg)
+	s := ""
+	if zzvf.Choice(tag+"$leading_slash", 2) == 1 {
+		s = "/"
+	}
+	for i := 0; i < n; i++ {
+		if i > 0 {
+			s += "/"
+		}
+		s += []string{"..", ".", "", "x", "other", "secret", "canary"}[zzvf.Choice(tag+"$seg", 7)]
+	}
+	return s
+}
+
+func vfHasDotSegment(s string) bool {
+	start := 0
+	for i := 0; i <= len(s); i++ {
+		if i == len(s) || s[i] == '/' {
+			seg := s[start:i]
+			if seg == ".." || seg == "." {
+				return true
+			}
+			start = i + 1
+		}
+	}
+	return false
+}
+
+// vfConfinementWorld: the named bucket "bkt" with one object, a second bucket "other" with a secret, a canary beside the
+// gateway root, version stores for both.
+func vfConfinementWorld() (p *Posix, protected map[*zzvfos.Inode]string) {
+	vfWorld()
+	p = vfNewPosix(vfConfig{versioning: true})
+	vfMustBucket(p, "bkt")
+	vfMustBucket(p, "other")
+	one := int64(1)
+	k, sk := "x", "secret"
+	zzvf.Assert(p.PutBucketVersioning(vfCtx(), "bkt", types.BucketVersioningStatusEnabled) == nil, "setup-versioning")
+	p.PutObject(vfCtx(), s3response.PutObjectInput{Bucket: vfStr("bkt"), Key: &k, Body: bytes.NewReader([]byte("W")), ContentLength: &one})
+	p.PutObject(vfCtx(), s3response.PutObjectInput{Bucket: vfStr("bkt"), Key: &k, Body: bytes.NewReader([]byte("X")), ContentLength: &one})
+	p.PutObject(vfCtx(), s3response.PutObjectInput{Bucket: vfStr("other"), Key: &sk, Body: bytes.NewReader([]byte("S")), ContentLength: &one})
+	zzvfos.MkdirAll("/vers/other/v", 0o755)
+	zzvfos.WriteFile("/vers/other/v/secret", []byte("V"), 0o644)
+	protected = map[*zzvfos.Inode]string{}
+	mark := func(path, what string) {
+		fi, err := zzvfos.Stat(path)
+		if err == nil {
+			protected[fi.(interface{ Node() *zzvfos.Inode }).Node()] = what
+		}
+	}
+	mark("/canary", "file beside the gateway root")
+	mark("/gw/other", "another bucket")
+	mark("/gw/other/secret", "object of another bucket")
+	mark("/vers/other", "version store of another bucket")
+	mark("/vers/other/v/secret", "version of another bucket")
+	zzvfos.M.Log = nil
+	return p, protected
+}
+
+// VfConfinement: C04 – no client-supplied path-like value makes a posix entry point read, create, change or remove
+// anything that belongs to another bucket, another bucket's version store, or lies outside the gateway root.
+func VfConfinement() {
+	seg := 3 + zzvf.Tier()
+	zzvf.Bound("segments_max", seg)
+	p, protected := vfConfinementWorld()
+	op := zzvf.Choice("operation", 8)
+	h := vfHostile("value", seg)
+	zzvf.Assume(vfHasDotSegment(h) || len(h) > 0 && h[0] == '/')
+	// bucket and key come from the request path, which the URL decoder refuses when it has dot segments (VfDecodeURL);
+	// the values below travel in headers and query parameters
+	one := int64(1)
+	name := ""
+	var err error
+	k := "x"
+	switch op {
+	case 0:
+		name = "CopyObject source"
+		dst := "copy"
+		src := "bkt/" + h
+		_, err = p.CopyObject(vfCtx(), s3response.CopyObjectInput{Bucket: vfStr("bkt"), Key: &dst, CopySource: &src, ExpectedBucketOwner: vfStr("caller")})
+	case 1:
+		name = "ListObjectsV2 prefix"
+		mk := int32(10)
+		_, err = p.ListObjectsV2(vfCtx(), &s3.ListObjectsV2Input{Bucket: vfStr("bkt"), Prefix: &h, ContinuationToken: vfStr(""),
+			Delimiter: vfStr(""), StartAfter: vfStr(""), MaxKeys: &mk})
+	case 2:
+		name = "ListObjectsV2 start-after"
+		mk := int32(10)
+		_, err = p.ListObjectsV2(vfCtx(), &s3.ListObjectsV2Input{Bucket: vfStr("bkt"), Prefix: vfStr(""), ContinuationToken: vfStr(""),
+			Delimiter: vfStr(""), StartAfter: &h, MaxKeys: &mk})
+	case 3:
+		name = "AbortMultipartUpload uploadId"
+		id := "../../../" + h
+		err = p.AbortMultipartUpload(vfCtx(), &s3.AbortMultipartUploadInput{Bucket: vfStr("bkt"), Key: &k, UploadId: &id})
+	case 4:
+		name = "UploadPart uploadId"
+		id := "../../../" + h
+		pn := int32(1)
+		_, err = p.UploadPart(vfCtx(), &s3.UploadPartInput{Bucket: vfStr("bkt"), Key: &k, UploadId: &id, PartNumber: &pn,
+			Body: bytes.NewReader([]byte("Z")), ContentLength: &one})
+	case 5:
+		name = "GetObject versionId"
+		id := "../../" + h
+		_, err = p.GetObject(vfCtx(), &s3.GetObjectInput{Bucket: vfStr("bkt"), Key: &k, VersionId: &id, Range: vfStr("")})
+	case 6:
+		name = "DeleteObject versionId"
+		id := "../../" + h
+		_, err = p.DeleteObject(vfCtx(), &s3.DeleteObjectInput{Bucket: vfStr("bkt"), Key: &k, VersionId: &id})
+	case 7:
+		name = "HeadObject versionId"
+		id := "../../" + h
+		_, err = p.HeadObject(vfCtx(), &s3.HeadObjectInput{Bucket: vfStr("bkt"), Key: &k, VersionId: &id})
+	}
+	_ = err
+	zzvf.Reach("returned")
+	zzvf.Trace("param=" + name)
+	for _, a := range zzvfos.M.Log {
+		if what, bad := protected[a.Node]; bad && a.Kind != "lookup" {
+			zzvf.Trace("touched=" + what + " by " + a.Op + " (" + a.Kind + ")")
+			zzvf.Fail("request-stays-inside-its-bucket")
+		}
+	}
+	// a value with dot segments must have been refused as a name, never resolved
+	for _, a := range zzvfos.M.Log {
+		if what, bad := protected[a.Node]; bad && a.Kind == "lookup" {
+			zzvf.Trace("resolved=" + what)
+			zzvf.Fail("dot-segments-are-not-resolved")
+		}
+	}
 }
